@@ -54,6 +54,46 @@ Proof. exact example_realisable_lem. Qed.
 Example example_not_realisable : units_ok ex_M_bad /\ check_layout ex_T ex_M_bad = false /\ ~ realisable ex_T ex_M_bad.
 Proof. exact example_not_realisable_lem. Qed.
 
+(* ---------- user-defined `external` types (m_externals; type references RExt) ---------- *)
+
+(* _verify_addressable_unit_attribute_on_external: [addressable_unit_size] is present and is 1 or 8 *)
+Theorem external_addressable_unit_rule : forall x, check_external x = true <-> real_external x.
+Proof. exact check_external_iff. Qed.
+
+(* in an accepted module every external has unit 1 or 8, and that unit is the one the field rules use
+   (bits hold bit-oriented types only; a byte order is needed iff the units differ) *)
+Theorem external_unit_rule : forall T M,
+  check_layout T M = true -> forall i x, nth_ext M i = Some x ->
+  (xd_unit x = Some 1 \/ xd_unit x = Some 8) /\ unit_of_ref M (RExt i) = ext_unit x
+  /\ (ext_unit x = 1 \/ ext_unit x = 8).
+Proof. exact external_unit_lem. Qed.
+
+(* _check_physical_type_requirements on a user-defined external: the [static_requirements] expression,
+   with $static_size_in_bits / $is_statically_sized bound as the field's size dictates, must be the
+   constant true; an external without the attribute accepts every size, static or not *)
+Theorem external_requirements_rule : forall T M i size,
+  t_req T = prelude_req -> (phys_req T M (RExt i) size = true <-> real_width M (RExt i) size).
+Proof. exact external_requirements_lem. Qed.
+
+(* ... and when the requirement is written as the prelude writes its own
+   ($is_statically_sized && lo <= $static_size_in_bits <= hi) it means exactly that range *)
+Theorem external_range_requirement : forall T M i x lo hi size,
+  nth_ext M i = Some x -> xd_req x = Some (range_req lo hi) ->
+  (phys_req T M (RExt i) size = true <-> exists w, size = Some w /\ lo <= w <= hi).
+Proof. exact external_range_requirement_lem. Qed.
+
+Theorem external_without_requirement : forall T M i x size,
+  nth_ext M i = Some x -> xd_req x = None -> phys_req T M (RExt i) size = true.
+Proof. exact external_without_requirement_lem. Qed.
+
+(* non-vacuity: a realisable module with a field of a user-defined external, and seven modules that
+   break one external rule each (no unit, unit 4, field narrower than the fixed size, width outside the
+   requirement, dynamic size, byte-oriented external in bits, non-constant [is_integer]) *)
+Example example_externals :
+  (units_ok ex_M_ext_ok /\ check_layout ex_T ex_M_ext_ok = true /\ realisable ex_T ex_M_ext_ok)
+  /\ Forall (fun M => units_ok M /\ check_layout ex_T M = false /\ ~ realisable ex_T M) ex_M_ext_bad.
+Proof. exact example_externals_lem. Qed.
+
 (* ====================== extended rule set (ModelExt.v) ====================== *)
 
 (* For ALL modules, tables and extension data: the mirror of the front end (check_early_constraints,
